@@ -475,5 +475,5 @@ pub fn run(ctx: &mut Ctx) {
             }
         }
     }
-    crate::spaces::depth_probes(ctx);
+    crate::spaces::depth_probes(ctx);    crate::spaces::sweep::length_sweep(ctx);
 }
